@@ -719,3 +719,228 @@ Section glue_tree.
         destruct ch' as [|y s]; [destruct Hch|]. rewrite Wc. cbn [bind]. rewrite Es. reflexivity.
   Qed.
 End glue_tree.
+
+(* ---- the offsets pass ---- *)
+
+Lemma nth_N_nth_error {A} : forall (l : list A) n, OW.nth_N l n = nth_error l (N.to_nat n).
+Proof.
+  induction l as [|x r IH]; intros n; cbn [OW.nth_N].
+  - destruct (N.to_nat n); reflexivity.
+  - destruct (n =? 0) eqn:E.
+    + apply N.eqb_eq in E. subst. reflexivity.
+    + apply N.eqb_neq in E. replace (N.to_nat n) with (S (N.to_nat (n - 1))) by lia. cbn [nth_error]. apply IH.
+Qed.
+
+Lemma nodup_app_inv {A} : forall (a b : list A), NoDup (a ++ b) -> NoDup a /\ NoDup b /\ (forall x, In x a -> ~ In x b).
+Proof.
+  induction a as [|x r IH]; intros b H; cbn [app] in H.
+  - split; [constructor|]. split; [exact H|]. intros x [].
+  - inversion H as [|? ? Hx Hr]; subst. destruct (IH _ Hr) as [A1 [A2 A3]]. split.
+    + constructor; [|exact A1]. intros Hin. apply Hx. apply in_or_app. now left.
+    + split; [exact A2|]. intros y [<-|Hy]; [intros Hin; apply Hx; apply in_or_app; now right|now apply A3].
+Qed.
+
+(* T1 is a less complete version of T2: every assigned (non-zero) offset of T1 is the same in T2 *)
+Definition le_tab (T1 T2 : list N) : Prop := forall i o, nth_error T1 i = Some o -> o <> 0 -> nth_error T2 i = Some o.
+(* none of `ids` has an offset yet *)
+Definition fresh (ids : list nat) (T : list N) : Prop := forall i o, In i ids -> nth_error T i = Some o -> o = 0.
+
+Lemma le_tab_trans a b c : le_tab a b -> le_tab b c -> le_tab a c.
+Proof. intros H1 H2 i o Hi Ho. apply H2; [apply H1; assumption|assumption]. Qed.
+
+Lemma le_tab_extends uoff T1 T2 : le_tab T1 T2 -> OT.extends (ouo uoff T1) (ouo uoff T2).
+Proof.
+  intros H. split; [reflexivity|]. cbn [OW.uo_entries ouo]. intros en off Hn Ho.
+  rewrite nth_N_nth_error in *. apply H; assumption.
+Qed.
+
+Section glue_calc.
+  Variables (dbg : bool) (cx : wcx) (lpv : N).
+  Notation e := (wc_enc cx).
+  Notation be := (wc_be cx).
+  Notation uoff := (wc_unit_off cx).
+
+  Fixpoint gcalc_list (l : list gdie) (s : cst) : res cst :=
+    match l with
+    | [] => Ok s
+    | c :: r => let* s' := gcalc dbg e be lpv uoff c s in gcalc_list r s'
+    end.
+
+  Lemma gcalc_unfold id tag sib attrs ch st :
+    gcalc dbg e be lpv uoff (GDie id tag sib attrs ch) st =
+    (let* ents := set_nth id (cs_off st) (cs_entries st) in
+     let d0 := Die id tag sib (inst_attrs dbg (oenc e be) (ouo uoff ents) attrs) (map shell ch) in
+     let* ab := die_abbrev dbg e d0 in
+     let (code, tab) := abbrev_add (cs_abbrevs st) ab in
+     let* codes := set_nth id code (cs_codes st) in
+     let* sz := die_size dbg e lpv d0 code in
+     let* off := chk_add 64 dbg (cs_off st) sz in
+     let st1 := mkCst off ents tab codes in
+     match ch with
+     | [] => Ok st1
+     | _ =>
+         let* st2 := gcalc_list ch st1 in
+         let* off2 := chk_add 64 dbg (cs_off st2) 1 in
+         Ok (mkCst off2 (cs_entries st2) (cs_abbrevs st2) (cs_codes st2))
+     end).
+  Proof. reflexivity. Qed.
+
+  Lemma gcalc_list_frame ch :
+    Forall (fun g => forall st st', gcalc dbg e be lpv uoff g st = Ok st' -> calc_frame_stmt dbg e (gdie_ids g) st st') ch ->
+    forall st st', gcalc_list ch st = Ok st' -> calc_frame_stmt dbg e (gdies_ids ch) st st'.
+  Proof.
+    induction 1 as [|c r Hc Hr IH]; intros st st' H; cbn [gcalc_list] in H.
+    - injection H as <-. repeat split; reflexivity.
+    - binds. unfold gdies_ids. cbn [flat_map]. eapply calc_frame_trans; [apply Hc; eassumption|apply IH; assumption].
+  Qed.
+
+  Lemma gcalc_frame : forall g st st',
+    gcalc dbg e be lpv uoff g st = Ok st' -> calc_frame_stmt dbg e (gdie_ids g) st st'.
+  Proof.
+    induction g as [id tag sib attrs ch IH] using gdie_ind2. intros st st' H.
+    rewrite gcalc_unfold in H. binds. cbv zeta in H. binds.
+    destruct (abbrev_add (cs_abbrevs st) a0) as [code tab] eqn:EA. binds.
+    destruct (set_nth_spec _ _ _ _ E) as [S1 [S2 S3]].
+    destruct (set_nth_spec _ _ _ _ E1) as [T1 [T2 T3]].
+    assert (F1 : calc_frame_stmt dbg e [id] st (mkCst a3 a tab a1)).
+    { split; [exact S3|]. split; [exact T3|]. intros i Hi. cbn [cs_entries cs_codes].
+      split; [apply S2|apply T2]; intros ->; apply Hi; now left. }
+    destruct ch as [|c r].
+    - injection H as <-. cbn [gdie_ids flat_map]. exact F1.
+    - binds. injection H as <-.
+      assert (F2 := gcalc_list_frame _ IH _ _ E4).
+      assert (F := calc_frame_trans _ _ _ _ _ _ _ F1 F2).
+      cbn [gdie_ids]. change (id :: flat_map gdie_ids (c :: r)) with ([id] ++ gdies_ids (c :: r)).
+      destruct F as [G1 [G2 G3]]. split; [exact G1|]. split; [exact G2|]. exact G3.
+  Qed.
+
+  Lemma frame_le ids st st' :
+    calc_frame_stmt dbg e ids st st' -> fresh ids (cs_entries st) -> le_tab (cs_entries st) (cs_entries st').
+  Proof.
+    intros [_ [_ F]] Fr i o Hi Ho. destruct (in_dec Nat.eq_dec i ids) as [Hin|Hn].
+    - exfalso. apply Ho. eapply Fr; eauto.
+    - destruct (F i Hn) as [E _]. congruence.
+  Qed.
+
+  Lemma frame_fresh ids1 ids2 st st' :
+    calc_frame_stmt dbg e ids1 st st' -> (forall i, In i ids1 -> ~ In i ids2) ->
+    fresh ids2 (cs_entries st) -> fresh ids2 (cs_entries st').
+  Proof.
+    intros [_ [_ F]] D Fr i o Hi Ho. destruct (F i) as [E _]; [intros Hin; exact (D i Hin Hi)|].
+    rewrite E in Ho. eapply Fr; eauto.
+  Qed.
+
+  (* abbreviation() and size() of an entry see the same thing in the composed tree and in its instance *)
+  Lemma av_form_rel uo gv a : vrel dbg cx gv a -> av_form e (inst dbg (cx_oe cx) uo 0 gv) = av_form e a.
+  Proof. destruct gv as [v|ex]; cbn [vrel]; [intros ->; reflexivity|intros [base ->]; reflexivity]. Qed.
+
+  Lemma specs_rel uo : forall gattrs attrs, Forall2 (arel dbg cx) gattrs attrs ->
+    attr_specs dbg e (inst_attrs dbg (cx_oe cx) uo gattrs) = attr_specs dbg e attrs.
+  Proof.
+    induction 1 as [|[n gv] [n' a] l l' [Hn [Hv _]] _ IH]; [reflexivity|].
+    cbn [fst snd] in Hn, Hv. subst n'. unfold inst_attrs in *. cbn [map attr_specs fst snd].
+    rewrite (av_form_rel uo gv a Hv). destruct (av_form e a) as [form ic]. rewrite IH. reflexivity.
+  Qed.
+
+  Lemma assert_exprloc x :
+    (if 4 <=? e_ver e then assert_form dbg e (AvExprloc x) DW_FORM_exprloc
+     else assert_form dbg e (AvExprloc x) DW_FORM_block) = Ok tt.
+  Proof.
+    unfold assert_form, dassert. cbn [av_form fst]. destruct (4 <=? e_ver e); rewrite N.eqb_refl; destruct dbg; reflexivity.
+  Qed.
+
+  Lemma av_size_rel u1 gv a s : OT.extends u1 (cx_uo cx) -> vrel dbg cx gv a ->
+    av_size dbg e lpv (inst dbg (cx_oe cx) u1 0 gv) = Ok s -> av_size dbg e lpv a = Ok s.
+  Proof.
+    intros X V H. destruct gv as [v|ex]; cbn [vrel] in V.
+    - subst. exact H.
+    - destruct V as [base ->]. cbn [inst] in *. unfold av_size in *. cbn [x_size] in *.
+      rewrite assert_exprloc in *. cbn [bind] in *.
+      apply bind_ok_inv in H. destruct H as [n [En H]].
+      rewrite (OT.size_expr_mono _ _ _ _ _ _ X En). cbn [bind]. exact H.
+  Qed.
+
+  Lemma sizes_rel u1 : OT.extends u1 (cx_uo cx) -> forall gattrs attrs, Forall2 (arel dbg cx) gattrs attrs ->
+    forall acc sz, attrs_size dbg e lpv acc (inst_attrs dbg (cx_oe cx) u1 gattrs) = Ok sz ->
+                   attrs_size dbg e lpv acc attrs = Ok sz.
+  Proof.
+    intros X. induction 1 as [|[n gv] [n' a] l l' [Hn [Hv _]] _ IH]; intros acc sz H; [exact H|].
+    cbn [fst snd] in Hn, Hv. unfold inst_attrs in *. cbn [map attrs_size fst snd] in *.
+    apply bind_ok_inv in H. destruct H as [s [Es H]]. rewrite (av_size_rel _ _ _ _ X Hv Es). cbn [bind].
+    apply bind_ok_inv in H. destruct H as [acc' [Ea H]]. rewrite Ea. cbn [bind]. apply IH. exact H.
+  Qed.
+
+  Lemma kids_shell ch : has_kids (map shell ch) = ghas_kids ch.
+  Proof. destruct ch; reflexivity. Qed.
+
+  Definition sim_stmt (g : gdie) : Prop := forall st st',
+    gcalc dbg e be lpv uoff g st = Ok st' -> le_tab (cs_entries st') (wc_entries cx) ->
+    NoDup (gdie_ids g) -> fresh (gdie_ids g) (cs_entries st) ->
+    forall d, xrel dbg cx g d -> calc dbg e lpv d st = Ok st'.
+
+  Lemma gcalc_list_sim gch : Forall sim_stmt gch -> forall st st' ch,
+    gcalc_list gch st = Ok st' -> le_tab (cs_entries st') (wc_entries cx) ->
+    NoDup (gdies_ids gch) -> fresh (gdies_ids gch) (cs_entries st) ->
+    xrel_list dbg cx gch ch -> calc_list dbg e lpv ch st = Ok st'.
+  Proof.
+    induction 1 as [|c r Hc Hr IH]; intros st st' ch H LE ND FR X.
+    - destruct ch; [|destruct X]. exact H.
+    - destruct ch as [|y s]; [destruct X|]. destruct X as [X1 X2]. cbn [gcalc_list] in H.
+      apply bind_ok_inv in H. destruct H as [s1 [E1 H]].
+      unfold gdies_ids in ND, FR. cbn [flat_map] in ND, FR. destruct (nodup_app_inv _ _ ND) as [N1 [N2 N3]].
+      assert (F1 := gcalc_frame _ _ _ E1).
+      assert (Fr2 : fresh (gdies_ids r) (cs_entries s1)).
+      { eapply frame_fresh; [exact F1|exact N3|]. intros i o Hi. apply FR. apply in_or_app. now right. }
+      assert (F2 : calc_frame_stmt dbg e (gdies_ids r) s1 st').
+      { apply (gcalc_list_frame r); [|exact H]. apply Forall_forall. intros g _. apply gcalc_frame. }
+      cbn [calc_list]. rewrite (Hc st s1 E1); [cbn [bind]; apply IH; assumption| | | |exact X1].
+      + eapply le_tab_trans; [eapply frame_le; eassumption|exact LE].
+      + exact N1.
+      + intros i o Hi. apply FR. apply in_or_app. now left.
+  Qed.
+
+  Lemma gcalc_sim : forall g, sim_stmt g.
+  Proof.
+    induction g as [id tag sib gattrs gch IH] using gdie_ind2. intros st st' H LE ND FR [id' tag' sib' attrs ch] X.
+    rewrite xrel_unfold in X. destruct X as [<- [<- [<- [Ha Hc]]]].
+    rewrite gcalc_unfold in H. rewrite calc_unfold.
+    apply bind_ok_inv in H. destruct H as [ents [E H]]. cbv zeta in H.
+    apply bind_ok_inv in H. destruct H as [ab [Eab H]].
+    destruct (abbrev_add (cs_abbrevs st) ab) as [code tab] eqn:EA.
+    apply bind_ok_inv in H. destruct H as [codes [Ecd H]].
+    apply bind_ok_inv in H. destruct H as [sz [Esz H]].
+    apply bind_ok_inv in H. destruct H as [off [Eoff H]].
+    cbn [gdie_ids] in ND, FR. inversion ND as [|? ? Nid Nch]; subst.
+    destruct (set_nth_spec _ _ _ _ E) as [S1 [S2 S3]].
+    (* the table size() saw is a less complete version of the final one *)
+    assert (Hle : le_tab ents (wc_entries cx)).
+    { destruct gch as [|c r].
+      - injection H as <-. exact LE.
+      - apply bind_ok_inv in H. destruct H as [st2 [E2 H]]. apply bind_ok_inv in H. destruct H as [off2 [_ H]].
+        injection H as <-. cbn [cs_entries] in LE.
+        assert (F2 : calc_frame_stmt dbg e (gdies_ids (c :: r)) (mkCst off ents tab codes) st2).
+        { apply (gcalc_list_frame (c :: r)); [|exact E2]. apply Forall_forall. intros g _. apply gcalc_frame. }
+        eapply le_tab_trans; [|exact LE].
+        apply (frame_le _ _ _ F2). cbn [cs_entries]. intros i o Hi Ho.
+        assert (Hne : i <> id) by (intros ->; exact (Nid Hi)).
+        rewrite (S2 i Hne) in Ho. eapply FR; [right; exact Hi|exact Ho]. }
+    assert (Hext := le_tab_extends uoff _ _ Hle). fold (cx_uo cx) in Hext.
+    rewrite E. cbn [bind].
+    assert (Hab : die_abbrev dbg e (Die id tag sib attrs ch) = Ok ab).
+    { rewrite <- Eab. unfold die_abbrev. rewrite kids_shell, (xrel_list_kids _ _ _ _ Hc).
+      fold (cx_oe cx). rewrite (specs_rel _ _ _ Ha). reflexivity. }
+    rewrite Hab. cbn [bind]. rewrite EA. rewrite Ecd. cbn [bind].
+    assert (Hsz : die_size dbg e lpv (Die id tag sib attrs ch) code = Ok sz).
+    { unfold die_size in *. rewrite kids_shell in Esz. rewrite (xrel_list_kids _ _ _ _ Hc).
+      apply bind_ok_inv in Esz. destruct Esz as [s0 [Es0 Esz]]. rewrite Es0. cbn [bind].
+      fold (cx_oe cx) in Esz. eapply sizes_rel; eassumption. }
+    rewrite Hsz. cbn [bind]. rewrite Eoff. cbn [bind]. cbv zeta.
+    destruct gch as [|c r]; destruct ch as [|y s]; try (destruct Hc; fail); [exact H|].
+    apply bind_ok_inv in H. destruct H as [st2 [E2 H]].
+    rewrite (gcalc_list_sim (c :: r) IH _ _ (y :: s) E2); [exact H| |exact Nch| |exact Hc].
+    - apply bind_ok_inv in H. destruct H as [off2 [_ H]]. injection H as <-. exact LE.
+    - cbn [cs_entries]. intros i o Hi Ho.
+      assert (Hne : i <> id) by (intros ->; exact (Nid Hi)).
+      rewrite (S2 i Hne) in Ho. eapply FR; [right; exact Hi|exact Ho].
+  Qed.
+End glue_calc.
